@@ -516,7 +516,7 @@ func init() {
 		Footer:   stdFooter,
 		Rule: "one case = one item tree (seed alone / redirect chains / assets, depth 0-3, consistent and a few inconsistent parents) whose nodes at the working depth carry raw URLs from a grammar " +
 			"(absolute, scheme-relative, path-absolute, path-relative, query/fragment-only, scheme-less, other schemes; hosts: plain, with port, userinfo, IDN/punycode, upper-case, percent-encoded, " +
-			"hosts containing the excluded strings, localhost/127.0.0.1 in several spellings, dot-less, IPv6; quotes, white space, backslashes) under one of 31 fixed filter configurations or a random one; " +
+			"hosts containing the excluded strings, localhost/127.0.0.1 in several spellings, dot-less, IPv6; quotes, white space, backslashes) under one of 34 fixed filter configurations or a random one; " +
 			"distinct by input text; non-trivial when at least one node got a request and at least one was rejected (normalisation or filters)",
 		Setup:    setupScope,
 		Gen:      genScope,
